@@ -19,8 +19,12 @@ def hx(variant="plain"):
 
 
 def parse(o):
-    m = re.match(r"fault=(\d+) allocs=(\d+) op=(\S+) retry=(\S+) log=(.*)$", o)
-    return m.groups() if m else None
+    m = re.match(r"fault=(\d+) allocs=(\d+) op=(\S+) (?:retry=(\S+) )?retry2=(\S+) log=(.*)$", o)
+    if not m:
+        return None
+    g = m.groups()
+    retry = g[3] if g[3] else g[4]          # a failing smaller job after the reset is reported first
+    return (g[0], g[1], g[2], retry, g[5])
 
 
 def run_ops(exe, ops):
